@@ -1061,8 +1061,6 @@ class CompilerPassGatherCode(CompilerPass):
             if isinstance(node, nodes.If):
                 for child in node.orelse:
                     self._visit_node(child)
-            if isinstance(node, nodes.IfExp):
-                self._visit_node(node.orelse)
 
         for line in data.code.get("end", []):
             self.add_line(line)
